@@ -1,6 +1,10 @@
 package genql
 
-import verif "github.com/vedadiyan/genql/zz_verif"
+import (
+	"unicode"
+
+	verif "github.com/vedadiyan/genql/zz_verif"
+)
 
 // symArray: an array of 0..3 numeric cells, possibly with a NULL.
 func symArray(label string) []any {
@@ -324,5 +328,32 @@ func H_C18_arity() {
 	doc := Map{"t": []any{Map{"arr": []any{float64(1), float64(2)}, "s": "base64", "b": true, "x": float64(3), "nul": nil}}}
 	got, err := runQueryQuiet(doc, "SELECT "+f.name+"("+args+") AS v FROM t", WithVars(map[string]any{}), WithConstants(map[string]any{"s": 1}))
 	verif.Assert(err != nil && len(got) == 0, "wrong-argument-count-is-error")
+	verif.Reach("end")
+}
+
+// H_C18_casemaps: TO_UPPER / TO_LOWER are the Unicode simple case maps, rune
+// by rune, on strings of one or two runes drawn from scripts where upper,
+// lower and title case differ (Latin digraphs, Georgian, Greek final sigma,
+// dotted/dotless i, sharp s, Cyrillic, Armenian ligature, invalid UTF-8).
+func H_C18_casemaps() {
+	runes := []string{"a", "Z", "é", "ß", "ÿ", "İ", "ı", "Ǆ", "ǅ", "ǆ", "ǲ", "ς", "Σ", "ж", "ა", "ქ", "Ა", "և", "ﬀ", "ⅰ", "𐐨", "\xff", "1"}
+	i := verif.Choose("r1", len(runes))
+	j := verif.Choose("r2", len(runes)+1)
+	s := runes[i]
+	if j < len(runes) {
+		s += runes[j]
+	}
+	m, err := oneRow(Map{"t": []any{Map{"s": s}}}, "SELECT TO_UPPER(s) AS u, TO_LOWER(s) AS l FROM t")
+	verif.Assert(err == nil, "no-error")
+	if err != nil {
+		return
+	}
+	up, lo := "", ""
+	for _, r := range s {
+		up += string(unicode.ToUpper(r))
+		lo += string(unicode.ToLower(r))
+	}
+	verif.Assert(verif.Eq(m["u"], up), "upper-is-unicode-simple-map")
+	verif.Assert(verif.Eq(m["l"], lo), "lower-is-unicode-simple-map")
 	verif.Reach("end")
 }
